@@ -9,7 +9,7 @@ class C17(PropBase):
     extractors = ["country"]
     rule = ("all 16,777,216 addresses: row.reg of a row created for the address (Plane::from_downlink), run-length encoded, "
             "against the model's nested match over the extracted arms and against the frozen allocation table; plus rows "
-            "created through the reader for block edges. Every address is a case; non-trivial = inside a block; "
+            "created through the reader for block edges, and rows that went through histories of every format with silences around delete_after (0, 1, 5 s). Every address is a case; non-trivial = inside a block; "
             "distinct_nontrivial counts run-length segments (blocks), not addresses.")
     assumptions = ["Spec/Annex10.lean is the allocation table of the edition the repository cites; Malta's block width could not be confirmed offline"]
 
@@ -72,5 +72,31 @@ class C17(PropBase):
                 self.fail(rep, f"row created by the reader for {a:06X} shows {got}, the allocation table says {want}",
                           {"ops": ["reset"] + gen.seg([F.df11(5, a, 0)]) + ["dump"], "address": a, "expected": want})
                 return
+        # the code shown is a function of the address alone - whatever the row has been through: histories of every format,
+        # silences on both sides of delete_after with few frames in between (a row may outlive its expiry until the next
+        # sweep), retention periods 0 / 1 / 5 s, -U on and off; after every segment every row carries its block's code
+        def want_of(a):
+            return next(c for (lo, hi), c in seg_of.items() if lo <= a <= hi)
+        pool = [a for a in addrs if want_of(a) != "??"]
+        for h in range(24 if tier == "quick" else 400):
+            da = [0, 1, 5, 5][h % 4]
+            u = bool(h % 2)
+            mine = rng.sample(pool, 3) + [rng.randrange(1, 1 << 24)]
+            ops = ["reset", gen.cfg_op(use_update=u, relaxed=bool(h % 3 == 0), delete_after=da)]
+            nseg = rng.randrange(3, 8)
+            for si in range(nseg):
+                lines = [gen.rand_frame(rng, rng.choice(gen.FORMATS), rng.choice(mine)) for _ in range(rng.randrange(1, 9))]
+                ops += [f"case h{si}"] + gen.seg(lines) + ["dump", "adv %d" % rng.choice([500, da * 1000 + 500, max(da * 1000 - 500, 500), 3 * da * 1000 + 1500])]
+            impl, _, model = run.execute(ops, model=driver_ok)
+            rep.evaluations += nseg; rep.traces += 1
+            self.corr(rep, impl, model, {"history": h, "delete_after": da, "use_update": u}, ops)
+            ci = core.split_cases(impl)
+            for si in range(nseg):
+                for a, r in gen.parse_dump(ci.get(f"h{si}", [])).items():
+                    if r.get("reg") != want_of(a):
+                        self.fail(rep, f"after a history with silences (delete_after {da}) the row of {a:06X} shows country {r.get('reg')!r}, the allocation table says {want_of(a)!r}",
+                                  {"ops": ops, "address": a, "expected": want_of(a), "segment": si})
+                        return
+            rep.nontriv(("history", h))
 
 PROP = C17()
